@@ -90,6 +90,12 @@ def gen_task(rng, lay, uid, simple=False, allow_app_slots=True):
         t['named_env'] = 'env1'
     elif r < 0.32 and allow_app_slots:
         t['app_slots'] = True
+        if rng.random() < 0.2:
+            # an application error: one of the supplied slots names a node or
+            # core the pilot does not have.  The task must fail - and leave
+            # the pilot's books exactly as they were
+            t['bad_app_slot'] = [rng.choice(['node', 'core']),
+                                 rng.choice([0, 0, 1, -1])]
     if rng.random() < 0.03:
         t['ranks'] = rng.choice([0, -1])
     return t
@@ -220,6 +226,24 @@ class Sim(object):
             slots = None
             if t.get('app_slots') and t['ranks'] > 0:
                 slots = self._app_slots(t)
+                if slots and t.get('bad_app_slot'):
+                    # the application gives its (valid) reservation back and
+                    # submits a broken copy
+                    self.app_nodelist.release_slots(
+                            [rp.Slot(copy.deepcopy(s)) for s in slots])
+                    kind, k = t['bad_app_slot']
+                    slots = copy.deepcopy(slots)
+                    bad   = slots[k % len(slots)]
+                    if kind == 'node':
+                        bad['node_index'], bad['node_name'] = 999, 'nowhere'
+                    elif bad['cores']:
+                        bad['cores'][0]['index'] = 9999
+                    else:
+                        bad['node_index'], bad['node_name'] = 999, 'nowhere'
+                    t['_bad_app_slots'] = True
+                    tds.append(task_dict(t, slots))
+                    self.submitted.append(u)
+                    continue
                 t['_app_slots_found'] = bool(slots)
                 if slots:
                     t['_app_slot_list'] = slots
